@@ -333,6 +333,42 @@ fn c03_instrumented() {
     kani::cover!(!done && k == 0);
 }
 
+/// `Instrumented::into_inner` hands back the wrapped value and releases the span handle it owned: exactly one
+/// close for the handle, no enter/exit beyond the polls that happened
+#[kani::proof]
+#[kani::unwind(5)]
+#[kani::stub(std::rt::thread_cleanup, noop)]
+#[kani::stub(core::fmt::write, fmt_write_stub)]
+fn c03_instrumented_into_inner() {
+    let (da, _g) = setup();
+    let k: u8 = kani::any();
+    kani::assume(k <= 2);
+    let mut flag = false;
+    let span = mk(&da);
+    let extra = span.clone();
+    let mut fut = Box::pin(Leaf { left: 3, dropped_in_span: &mut flag }.instrument(span));
+    let waker = unsafe { Waker::from_raw(RawWaker::new(core::ptr::null(), &VT)) };
+    let mut cx = Context::from_waker(&waker);
+    let mut i = 0;
+    while i < k {
+        assert!(fut.as_mut().poll(&mut cx) == Poll::Pending);
+        i += 1;
+    }
+    // move to another simulated thread before unwrapping
+    let t: usize = kani::any();
+    kani::assume(t < 2);
+    v::set_thread(t);
+    let inner = unsafe { Pin::into_inner_unchecked(fut) }.into_inner();
+    assert!(ld(&A.enters) == k as usize && ld(&A.exits) == k as usize);
+    // the handle owned by the wrapper is gone; the clone we kept is the only one left
+    assert!(ld(&A.closes) == 1);
+    core::mem::forget(inner);
+    drop(extra);
+    quiescent(1, 1, 2);
+    kani::cover!(k == 2 && t == 1);
+    kani::cover!(k == 0);
+}
+
 /// vacuity twin
 #[kani::proof]
 #[kani::unwind(4)]
